@@ -6,6 +6,7 @@ import json
 import os
 import re
 import shutil
+import stat
 import subprocess
 import tempfile
 from concurrent.futures import ThreadPoolExecutor
@@ -123,13 +124,15 @@ def name_facts(names, tests_pat=DEFAULT_TESTS, file_pat=DEFAULT_FILE, ignore_dir
     return facts
 
 
-def tree_record(paths, roots, mpats=(), keep=False, walk=None, root_pkgs=None, usecompiled=False, **pat):
-    """paths (closed) -> the T record of Discovery.tla; roots: relpaths ('' = top)"""
+def tree_record(paths, roots, mpats=(), keep=False, walk=None, root_pkgs=None, usecompiled=False,
+                linkdirs=(), **pat):
+    """paths (closed) -> the T record of Discovery.tla; roots: relpaths ('' = top);
+    linkdirs: the directories that are symbolic links (an lstat fact)"""
     names = sorted({p.split('/')[-1] for p in paths})
     entries = {}
     for p, kind in paths.items():
         parent = '/'.join(p.split('/')[:-1])
-        entries[p] = {'parent': parent, 'name': p.split('/')[-1], 'kind': kind}
+        entries[p] = {'parent': parent, 'name': p.split('/')[-1], 'kind': kind, 'link': p in linkdirs}
     tests_pat = pat.get('tests_pat', DEFAULT_TESTS)
 
     root_pkgs = root_pkgs or {}
@@ -144,7 +147,7 @@ def tree_record(paths, roots, mpats=(), keep=False, walk=None, root_pkgs=None, u
         if kind == 'file':
             mm[p] = {r: [bool(re.search(m.lstrip('!') if m.startswith('!') else m, dotted(p, r)))
                          for m in mpats] for r in set(roots)}
-    return {'entries': entries or {'_': {'parent': '_', 'name': '_', 'kind': 'none'}},
+    return {'entries': entries or {'_': {'parent': '_', 'name': '_', 'kind': 'none', 'link': False}},
             'names': name_facts(names + ['_'], **pat),
             'roots': list(roots),
             'rootPkg': [root_pkgs.get(r, '') for r in roots],
@@ -156,15 +159,40 @@ def tree_record(paths, roots, mpats=(), keep=False, walk=None, root_pkgs=None, u
             'mmatch': mm or {'_': {'': []}}, 'keep': bool(keep), 'usecompiled': bool(usecompiled)}
 
 
+def _hash(full):
+    try:
+        with open(full, 'rb') as fh:
+            return hashlib.sha1(fh.read()).hexdigest()
+    except OSError as e:
+        return 'unreadable:%s' % e.errno
+
+
+def entry_state(full):
+    """what is compared before / after a run, per directory entry: type, the
+    entry's own permission bits (lstat) and, for a file, its content; for a
+    symbolic link its spelling and what it leads to (stat: type, permission
+    bits, content of the file behind it - wherever that file lives)"""
+    st = os.lstat(full)
+    mode = '%04o' % stat.S_IMODE(st.st_mode)
+    if stat.S_ISLNK(st.st_mode):
+        try:
+            tst = os.stat(full)
+        except OSError:
+            return 'link %s -> %s (dangling)' % (mode, os.readlink(full))
+        if stat.S_ISDIR(tst.st_mode):
+            return 'link %s dir %04o' % (mode, stat.S_IMODE(tst.st_mode))
+        return 'link %s -> %s file %04o %s' % (mode, os.readlink(full), stat.S_IMODE(tst.st_mode), _hash(full))
+    if stat.S_ISDIR(st.st_mode):
+        return 'dir %s' % mode
+    return 'file %s %s' % (mode, _hash(full))
+
+
 def snapshot(top):
     out = {}
     for dp, dirs, files in os.walk(top):
-        for d in dirs:
-            out[os.path.relpath(os.path.join(dp, d), top)] = 'dir'
-        for f in files:
-            full = os.path.join(dp, f)
-            with open(full, 'rb') as fh:
-                out[os.path.relpath(full, top)] = hashlib.sha1(fh.read()).hexdigest()
+        for n in dirs + files:
+            full = os.path.join(dp, n)
+            out[os.path.relpath(full, top)] = entry_state(full)
     return out
 
 
@@ -231,12 +259,37 @@ def run_case(case):
             for q, kind in sp.items():
                 paths[lp + '/' + q] = kind
 
+        # symlinked files (C15): {link path: {'target': relpath inside the tree
+        # | None (dangling) | '<store>/name' (a file outside every search path),
+        # 'mode': permission bits of the target}}; for os.walk - and for the
+        # runner - such an entry is a file of its directory
+        store = os.path.join(base, 'store')
+        for lp, spec in sorted((case.get('flinks') or {}).items()):
+            tgt = spec.get('target')
+            if tgt is None:
+                dest = os.path.join(base, 'nowhere', os.path.basename(lp))
+            elif tgt.startswith('<store>/'):
+                dest = os.path.join(store, tgt[len('<store>/'):])
+                os.makedirs(store, exist_ok=True)
+                with open(dest, 'w') as f:
+                    f.write('stored %s\n' % tgt)
+            else:
+                dest = os.path.join(top, tgt)
+            if tgt is not None and 'mode' in spec:
+                os.chmod(dest, spec['mode'])
+            os.makedirs(os.path.dirname(os.path.join(top, lp)), exist_ok=True)
+            os.symlink(dest, os.path.join(top, lp))
+            paths.update(closure({lp: 'file'}))
+
         def snap():
             out = snapshot(top)
             for lp, ext in links.items():
-                out[lp] = 'dir' if os.path.islink(os.path.join(top, lp)) else 'gone'
                 for q, h in snapshot(ext).items():
                     out[lp + '/' + q] = h
+            if os.path.isdir(store):
+                out['<store>'] = entry_state(store)
+                for q, h in snapshot(store).items():
+                    out['<store>/' + q] = h
             return out
         before = snap()
         args = []
@@ -260,6 +313,7 @@ def run_case(case):
         res = run_runner(top, args, env_extra=extra_env)
         after = snap()
         res['paths'] = paths
+        res['linkdirs'] = sorted(links)
         res['deleted'] = sorted(p for p in before if p not in after)
         res['changed'] = sorted([p for p in before if p in after and before[p] != after[p]] +
                                 [p for p in after if p not in before])
